@@ -408,6 +408,27 @@ impl Mon {
 
     // ------------------------------------------------------------------ C14
     fn c14_ix(&mut self, w: &World, v: &IxView, info: &IxInfo) {
+        if info.kind == Kind::PropagateFeeState {
+            // the group learns the pause from the global fee state: what it records must be that state
+            let fs = v.pre(&crate::ix::fee_state_key()).and_then(fee_state_of);
+            for s in v.ev.post.iter().filter(|s| s.owner == MFI) {
+                if let (Some(g), Some(fs)) = (group_of(&s.data), fs.as_ref()) {
+                    self.r.eval();
+                    self.r.count("C14.propagations");
+                    let ps = fs.panic_state;
+                    let c = g.panic_state_cache;
+                    if (c.pause_flags & 1) != (ps.pause_flags & 1) || ((ps.pause_flags & 1) != 0 && c.pause_start_timestamp != ps.pause_start_timestamp) {
+                        self.r.violate("C14", "C14/PropagateFeeState/group-cache-differs-from-global-pause-state", format!("group {}: global flags {} start {} but cached flags {} start {}", s.key, ps.pause_flags, ps.pause_start_timestamp, c.pause_flags, c.pause_start_timestamp));
+                    }
+                    if ps.pause_flags & 1 != 0 {
+                        self.pause_window.insert(s.key, (info.now, ps.pause_start_timestamp + 1800));
+                    } else {
+                        self.pause_window.remove(&s.key);
+                    }
+                    self.r.distinct(&("propagate", ps.pause_flags & 1, (ps.pause_start_timestamp - info.now).clamp(-1801, 1801)));
+                }
+            }
+        }
         let _ = (w, v);
         let financial = matches!(info.kind, Kind::Deposit | Kind::Withdraw | Kind::Borrow | Kind::Repay | Kind::Liquidate | Kind::HandleBankruptcy);
         if !financial {
@@ -445,8 +466,11 @@ impl Mon {
                 None => continue,
             };
             let c = gp.panic_state_cache;
-            let in_force = c.pause_flags & 1 != 0 && now >= c.pause_start_timestamp && now - c.pause_start_timestamp < 1800;
-            if !in_force {
+            // in force for the group: announced by a propagation and not yet run out (window taken
+            // from the global state at propagation time), or recorded in the group's own cache
+            let by_window = self.pause_window.get(&g.key).map(|(from, until)| now >= *from && now < *until).unwrap_or(false);
+            let by_cache = c.pause_flags & 1 != 0 && now >= c.pause_start_timestamp && now - c.pause_start_timestamp < 1800;
+            if !(by_window || by_cache) {
                 continue;
             }
             self.r.eval();
@@ -504,6 +528,11 @@ impl Mon {
     fn c08_ix(&mut self, w: &World, v: &IxView, info: &IxInfo) {
         let _ = w;
         let g = self.group_for(v, info);
+        if matches!(info.kind, Kind::StartLiquidation | Kind::StartDeleverage) {
+            if let Some((k, _, _)) = info.accts.first() {
+                self.rcv_started_in_tx.insert(*k);
+            }
+        }
         // role-signed administrative instructions
         if let Some(role) = role_of(info.kind) {
             self.r.eval();
@@ -549,7 +578,11 @@ impl Mon {
             let risk_signed = g.as_ref().map(|g| info.signers.contains(&g.risk_admin)).unwrap_or(false);
             let frozen = p.account_flags & ACCOUNT_FROZEN != 0;
             let u_rule = if frozen { admin_signed } else { auth_signed };
-            let in_rcv = p.account_flags & ACCOUNT_IN_RECEIVERSHIP != 0;
+            // "strictly inside an active receivership": the bracket was opened in this very transaction
+            let in_rcv = p.account_flags & ACCOUNT_IN_RECEIVERSHIP != 0 && self.rcv_started_in_tx.contains(ak);
+            if p.account_flags & ACCOUNT_IN_RECEIVERSHIP != 0 && !self.rcv_started_in_tx.contains(ak) {
+                self.r.count("C08.receivership_marker_present_without_start_in_this_transaction");
+            }
             let (ok, rule) = match info.kind {
                 Kind::Deposit | Kind::Borrow | Kind::CloseBalance | Kind::WithdrawEmissions | Kind::TransferAccount | Kind::TransferAccountPda | Kind::KaminoDeposit | Kind::DriftDeposit | Kind::SolendDeposit => (u_rule, "authority-or-admin-if-frozen"),
                 Kind::Withdraw | Kind::Repay | Kind::KaminoWithdraw | Kind::DriftWithdraw | Kind::SolendWithdraw => (u_rule || in_rcv, "authority-admin-if-frozen-or-receivership"),
